@@ -205,7 +205,7 @@ def describe_sched(ls):
                 if not ks:
                     kb = d["r"] // (100000 * c["m"]) if d["r"] > 0 else -1
                     rest = d["r"] - 100000 * c["m"] * kb
-                    kp = rest / c["n"] if c["n"] else None
+                    kp = (rest // c["n"] if rest % c["n"] == 0 else round(rest / c["n"], 2)) if c["n"] else None
                     out.append("exec g=%d charge=%d m=%d n=%d: base part of schedule %s, per-byte part of schedule %s -> no single schedule%s" % (
                         c["g"], d["r"], c["m"], c["n"], kb, kp, (" (" + c["err"] + ")") if "err" in c else ""))
     return out
@@ -449,10 +449,11 @@ def run_c19(run):
     run.cov["exhaustive"] = True   # of the lock-protocol model; schedule exploration on the real code is random
 
     jobs = []
+    toff = 0 if run.tier == "quick" else 100     # the tiers draw different operation mixes
     for i, n in enumerate(cfg["plain"]):
-        jobs.append((exe, False, run.seed * 1000 + i, n, cfg["bulk_plain"], 1, "p%d" % i))
+        jobs.append((exe, False, run.seed * 1000 + toff + i, n, cfg["bulk_plain"], 1, "p%d" % i))
     for i, n in enumerate(cfg["race"]):
-        jobs.append((exe_race, True, run.seed * 1000 + 500 + i, n, cfg["bulk_race"], cfg["bulkreps"], "r%d" % i))
+        jobs.append((exe_race, True, run.seed * 1000 + toff + 500 + i, n, cfg["bulk_race"], cfg["bulkreps"], "r%d" % i))
     results = []
     total = Counter()
     tot = dict(rounds=0, accepted=0, ops=0, overlaps=0, races=0, bulk_rounds=0)
